@@ -1397,9 +1397,14 @@ def expand_fragment(frag_name, text, out_lines, regions, log, vacuity=False):
                     except ExtractError:
                         degraded = None
                 if degraded is None:
-                    if not is_slice:
+                    gone_fn = (not is_slice and 'matches 0 items' in str(e)
+                               and spec.path.split('/')[-1].strip().startswith('fn '))
+                    if not is_slice and not gone_fn:
                         raise
-                    degraded = 'left out'
+                    # a FUNCTION the unit lists no longer exists (renamed, merged into another, removed): only its own
+                    # obligations become undecided; whoever still calls it fails to compile in the miniature crate and is
+                    # degraded in turn. (A missing type or trait stays fatal for the unit.)
+                    degraded = 'left out (the function no longer exists)' if gone_fn else 'left out'
                 cur_region.kind = 'degraded'
                 DEGRADED.append({'region': name, 'props': list(cur_region.props), 'reason': str(e), 'how': degraded})
             end_region()
